@@ -139,6 +139,14 @@ pub fn scenarios(thorough: bool) -> Vec<Scenario> {
         sc.track = true;
         sc.key_opts.heads = true;
     }
+    // the same explorations with the staged records exported in reversed hash-iteration order
+    let mut rev: Vec<Scenario> = v.iter().cloned().map(|mut s| {
+        s.name = format!("{}[hash-order=reverse]", s.name);
+        s.order = Some(melda::verif_hooks::order::Mode::Reverse);
+        if s.max_depth > 3 { s.max_depth -= 1; }
+        s
+    }).collect();
+    v.append(&mut rev);
     v
 }
 
